@@ -21,7 +21,7 @@ namespace Nun
 * `bo.rs::from::unreachable!` — `ClusterRole::from(usize)`: only 0,1,2 are ever stored in `node_state`;
 * `bo.rs::next_op_log_id::expect`, `db_ops.rs::create_init_dbs::expect` — system clock before 1970;
 * `bo.rs::promote_member::unwrap()` — supervisor path, guarded by `has_cluster_memeber`; not reachable from a client line;
-* `consensus_ops.rs::{has_pendding_conflict, register_arbiter, resolve_conflit}::unwrap()` — `get_value` of a key just returned by `list_keys` (sequentially always present; a concurrent remove is C03's interleaving matter);
+* `consensus_ops.rs::{apply_resolution, has_pendding_conflict, register_arbiter}::unwrap()` — `get_value` of a key just returned by `list_keys` (sequentially always present; a concurrent remove is C03's interleaving matter);
 * `election_ops.rs::start_election::unwrap()` — guarded by `opp.is_some()`;
 * `process_request.rs::process_request_obj::unwrap()` ×2 — `missing_dbs.last()` in the arm `1 =>` (exactly one element); `try_send` of the `rp` ack on a fresh clone of the sender (never full);
 * `replication_ops.rs::replicate_request::expect` ×6 — selected database of a data command that did not answer an error (the guard layer returns an error without a selection; `snapshot` only when no names were given);
@@ -31,9 +31,9 @@ theorem C10_panic_sites_justified : Gen.panicSites = [
     (b!"bo.rs::from::unreachable!", 1),
     (b!"bo.rs::next_op_log_id::expect", 1),
     (b!"bo.rs::promote_member::unwrap()", 1),
+    (b!"consensus_ops.rs::apply_resolution::unwrap()", 1),
     (b!"consensus_ops.rs::has_pendding_conflict::unwrap()", 1),
     (b!"consensus_ops.rs::register_arbiter::unwrap()", 1),
-    (b!"consensus_ops.rs::resolve_conflit::unwrap()", 1),
     (b!"db_ops.rs::create_init_dbs::expect", 1),
     (b!"election_ops.rs::start_election::unwrap()", 1),
     (b!"process_request.rs::process_request_obj::unwrap()", 2),
